@@ -21,10 +21,21 @@ def one(job):
         out["errors"].append(("patch", str(e)[:200]))
         return out
     only = os.environ.get("ONLY_CHECKS", "").split(",") if os.environ.get("ONLY_CHECKS") else None
+    import signal
+
+    class _Timeout(Exception):
+        pass
+
+    def _alarm(signum, frame):
+        raise _Timeout()
+
+    signal.signal(signal.SIGALRM, _alarm)
+    per_check = int(os.environ.get("CHECK_TIMEOUT", "1500"))
     for i in range(1, 21):
         pid = f"C{i:02d}"
         if only and pid not in only:
             continue
+        signal.alarm(per_check)
         try:
             repo = Repo(overlay=ov)
             mod = importlib.import_module(f"sa.rules.c{i:02d}")
@@ -40,8 +51,17 @@ def one(job):
                     out["fails"].append((pid, f.rule, f.function, f.construct[:80], f.message[:200]))
         except AnalysisError as e:
             out["errors"].append((pid, str(e)[:300]))
+        except _Timeout:
+            out["errors"].append((pid, f"TIMEOUT: the check did not finish within {per_check} s"))
         except Exception as e:
             out["errors"].append((pid, f"CRASH {type(e).__name__}: {e}"[:300]))
+        finally:
+            signal.alarm(0)
+    try:
+        with open(os.environ.get("OUT", "/tmp/rulematrix.json") + "l", "a") as fh:
+            fh.write(json.dumps(out) + "\n")
+    except OSError:
+        pass
     return out
 
 
